@@ -110,8 +110,11 @@ def build_project(values: Dict[str, str], fmt: str) -> Tuple[Dict[str, str], Lis
         '    def old(self):',
         '        pass',
         # expressions that the value colouriser hands to its generic fallback (one piece of text)
-        'def generic(p=lambda: %s, q=%s if CONST else %s, r=(1 < %s), s=[x for x in %s]):' % (r(v['default_lambda']), r(v['default_ifexp']), r(v['default_ifexp']), r(v['default_cmp']), r(v['default_comp'])),
-        '    pass',
+        # (one function each: a signature that cannot be rendered is replaced as a whole)
+        'def generic_lambda(p=lambda: %s):' % r(v['default_lambda']), '    pass',
+        'def generic_ifexp(q=%s if CONST else %s):' % (r(v['default_ifexp']), r(v['default_ifexp'])), '    pass',
+        'def generic_cmp(r=(1 != %s)):' % r(v['default_cmp']), '    pass',
+        'def generic_comp(s=[x for x in %s]):' % r(v['default_comp']), '    pass',
         'CALLBACK = lambda: %s' % r(v['const_lambda']),
     ]) + '\n'
     stem = v['stem']
